@@ -27,15 +27,17 @@ var ErrInjected = errors.New("injected storage failure")
 // Gate wraps the shared storage for one provider: every call is an
 // environment scheduling point and (if allowed) a fault choice.
 type Gate struct {
-	Inner       kvs.Storage
-	Name        string
-	Faults      bool  // fault choices enabled on acquire/release-path calls
-	Dead        *bool // when *Dead, every call vanishes (the process died)
-	RenewFaults bool  // fault choices on CasByVersion (renewal path)
-	ReplyPoint  bool  // a scheduling point between the storage's effect and the caller seeing the reply (the reply is "in transit")
-	HonourCtx   bool  // refuse a call whose context has ended, like a networked storage does (kvs/inmem ignores contexts)
-	Calls       *[]string
-	OnCall      func(g *Gate, op string)
+	Inner           kvs.Storage
+	Name            string
+	Faults          bool            // fault choices enabled on acquire/release-path calls
+	Dead            *bool           // when *Dead, every call vanishes (the process died)
+	RenewFaults     bool            // fault choices on CasByVersion (renewal path)
+	RequestLostOnly bool            // fault choices are "request lost" only (no "reply lost")
+	lastFaulted     map[string]bool // RequestLostOnly: the operation whose previous call was lost (its next call gets through)
+	ReplyPoint      bool            // a scheduling point between the storage's effect and the caller seeing the reply (the reply is "in transit")
+	HonourCtx       bool            // refuse a call whose context has ended, like a networked storage does (kvs/inmem ignores contexts)
+	Calls           *[]string
+	OnCall          func(g *Gate, op string)
 	// Injected lists the faults injected so far ("Cas:reply-lost", ...)
 	Injected []string
 	// OnResult is told the outcome of every call that reached the storage
@@ -50,11 +52,24 @@ func (g *Gate) pre(op string, faultable bool) (lostReq, lostRep bool) {
 	if g.Dead != nil && *g.Dead {
 		return true, false
 	}
+	if faultable && g.RequestLostOnly && g.lastFaulted[op] {
+		// spaced faults: the call right after a lost one gets through (the storage does answer, just not every time)
+		g.lastFaulted[op] = false
+		faultable = false
+	}
 	if faultable {
-		switch vsched.Choose("fault:"+g.Name+"."+op, 3, false) {
+		kinds := 3
+		if g.RequestLostOnly {
+			kinds = 2
+		}
+		switch vsched.Choose("fault:"+g.Name+"."+op, kinds, false) {
 		case 1:
 			vsched.Note("%s.%s request lost", g.Name, op)
 			g.Injected = append(g.Injected, op+":request-lost")
+			if g.lastFaulted == nil {
+				g.lastFaulted = map[string]bool{}
+			}
+			g.lastFaulted[op] = true
 			return true, false
 		case 2:
 			vsched.Note("%s.%s reply lost", g.Name, op)
